@@ -18,6 +18,7 @@ pub mod c17;
 pub mod c18;
 pub mod c19;
 pub mod c20;
+pub mod e2e;
 
 use crate::engine::Property;
 
